@@ -85,7 +85,7 @@ PROPS["C06"] = dict(
             deterministic=False),
         run("meter-sched", "c06_sched", "meter_sched", "rc", dict(procs=4, cases=30000), dict(procs=8, cases=400000), asan_extra=SCHED_ASAN),
         # fixed cases: only ever replayed (replays/C06/*.json, known/C06/*.json); no search budget
-        run("sum-limits", "c06_rc", "sum_limits", "rc", dict(procs=1, cases=30000), dict(procs=2, cases=300000)),
+        run("sum-limits", "c06_rc", "sum_limits", "rc", dict(procs=2, cases=8000), dict(procs=2, cases=300000)),
         run("f7-witness", "c06_rc", "f7_witness", "rc", None, None),
         run("f8-handle-witness", "c06_rc", "f8_handle_witness", "rc", None, None),
         run("f8-views-witness", "c06_rc", "f8_views_witness", "rc", None, None),
